@@ -214,9 +214,12 @@ UnitDeviationNames ==
 \* Paged formats: unit k mirrors source unit k.
 PagedUnits(d, fmt, us, dev) ==
     LET dropEmpty == ("Rtf!EmptyPageDropped" \in dev /\ fmt = "rtf") \/ ("Ppt!EmptySlideDropped" \in dev /\ fmt = "ppt")
+        hasText(k) == \E a \in Range(Tokens(FlatUnitBody(d.units[k]))) : Req(fmt, a[3]) = "MUST"
         keep == IF dropEmpty
+                \* rtf: pages without text are skipped.  ppt (_parse_slide_list_container): an empty slide is dropped
+                \* once any text has been seen, i.e. empty slides BEFORE the first slide with text are kept
                 THEN SelectSeq([k \in DOMAIN d.units |-> k],
-                               LAMBDA k : \E a \in Range(Tokens(FlatUnitBody(d.units[k]))) : Req(fmt, a[3]) = "MUST")
+                               LAMBDA k : hasText(k) \/ (fmt = "ppt" /\ \A m \in 1..k : ~hasText(m)))
                 \* a source position that is not a unit of this kind (EPUB spine item that is no chapter: an SVG page,
                 \* a dangling idref) yields no unit but still counts as a position
                 ELSE SelectSeq([k \in DOMAIN d.units |-> k], LAMBDA k : d.units[k].gap = 0)
